@@ -170,6 +170,18 @@ fn step(s: &mut Session, sink: &mut Sink, op: &str, req: &str, x: usize, y: usiz
             };
             sink.fail("C05", &sig, &format!("{}: consolidation is on and the forest had no adjacent text nodes, afterwards it has", req), &s.history);
         }
+        // the PAIR reading of the consolidation clause (`Model/FspecSpec3.lean`) is defined for
+        // every forest: compared on every successful move / remove / detach, also when the
+        // pre-state already holds adjacent text nodes
+        if matches!(op, "append" | "prepend" | "insert_after" | "insert_before" | "detach" | "remove") {
+            let content = erase_labels(&s.dump());
+            sink.lines.insert(mark, (format!("forest specp {}", req), content));
+            sink.lines.insert(mark + 1, (format!("forest specpx {}", req), "1".into()));
+            sink.stat("specp.checked");
+            if nonnormal {
+                sink.stat("specp.checked.prestate-has-adjacent-text");
+            }
+        }
         if (nonnormal && restrict) || left_adjacent {
             sink.stat("spec.skipped");
         } else {
@@ -395,6 +407,69 @@ fn exhaustive(sink: &mut Sink) {
     }
 }
 
+/// Forests that hold ADJACENT text nodes while consolidation is on (built with consolidation
+/// off, then switched on): one element with up to four children drawn from {text, empty
+/// element}, plus a second parentless tree; all (operation, node, node) triples of the moves,
+/// `remove` and `detach`.  Compared with the PAIR reading of the consolidation clause
+/// (`Model/FspecSpec3.lean`).
+fn exhaustive_adjacent_text(sink: &mut Sink) {
+    let mut kid_lists: Vec<Vec<GTree>> = vec![];
+    for len in 2..=4usize {
+        for mask in 0..(1u32 << len) {
+            let kids: Vec<GTree> = (0..len)
+                .map(|i| {
+                    if mask & (1 << i) != 0 {
+                        GTree::leaf(GValue::Text(((b'a' + i as u8) as char).to_string()))
+                    } else {
+                        GTree::leaf(GValue::Element(3))
+                    }
+                })
+                .collect();
+            // at least one pair of adjacent text nodes
+            if kids.windows(2).any(|w| matches!(w[0].v, GValue::Text(_)) && matches!(w[1].v, GValue::Text(_))) {
+                kid_lists.push(kids);
+            }
+        }
+    }
+    let seconds = vec![GTree::leaf(GValue::Text("z".into())), GTree::leaf(GValue::Element(6))];
+    const OPS2: &[&str] = &["append", "prepend", "insert_after", "insert_before"];
+    const OPS1: &[&str] = &["detach", "remove"];
+    for kids in &kid_lists {
+        for second in &seconds {
+            let forest = vec![GTree::new(GValue::Element(2), kids.clone()), second.clone()];
+            let n: usize = forest.iter().map(|t| t.size()).sum();
+            let mut run = |op: &str, a: usize, b: usize| {
+                let mut s = Session::new();
+                let mut cons = false;
+                s.exec(sink, "reset");
+                s.exec(sink, "cons 0");
+                for t in &forest {
+                    build_ops(&mut s, sink, t);
+                }
+                s.exec(sink, "cons 1");
+                cons = cons || true;
+                let req = match op {
+                    "detach" | "remove" => format!("{} {}", op, a),
+                    _ => format!("{} {} {}", op, a, b),
+                };
+                sink.stat("exhaustive-adjacent.cases");
+                step(&mut s, sink, op, &req, a, b, &mut cons, true);
+                s.exec(sink, "dump");
+            };
+            for a in 0..n {
+                for op in OPS1 {
+                    run(op, a, a);
+                }
+                for b in 0..n {
+                    for op in OPS2 {
+                        run(op, a, b);
+                    }
+                }
+            }
+        }
+    }
+}
+
 pub fn run(seed: u64, count: usize, tier: &str, sink: &mut Sink) {
     let mut rng = Rng::new(seed ^ 0xC05);
     let n_ops = if tier == "quick" { 25 } else { 60 };
@@ -403,6 +478,9 @@ pub fn run(seed: u64, count: usize, tier: &str, sink: &mut Sink) {
     let restrict = tier != "explore";
     if tier == "thorough" {
         exhaustive(sink);
+    }
+    if tier != "search" {
+        exhaustive_adjacent_text(sink);
     }
     for i in 0..count {
         one_history(&mut rng, sink, n_ops, i % 4 == 3, restrict);
